@@ -66,10 +66,18 @@ def run(repo):
     n_blocks = 0
     for n in assigns:
         name, v = n.targets[0].id, n.value
-        st, b, _d = pmatch('%s @ _SL[_S].T' % dual, v)
+        # locals other than the multiplier matrix are read through (rest = support.linear[k:]; dual_var @ rest.T)
+        vx = expand_locals(fi.node, v, depth=4, defs={k_: d_ for k_, d_ in defs.items() if k_ != dual})
+        st, b, _d = pmatch('%s @ _SL[_S].T' % dual, vx)
         if st == 'match' and b['_SL'][1].endswith('.linear'):
-            cur[name] = (slice_key(v.right.value.slice), n, b['_SL'][1][:-len('.linear')])
+            cur[name] = (slice_key(vx.right.value.slice), ast.copy_location(ast.Assign(targets=n.targets, value=vx), n),
+                         b['_SL'][1][:-len('.linear')])
             continue
+        if name in cur and not any(isinstance(x, ast.Name) and x.id == name for x in ast.walk(v)):
+            if any(isinstance(x, ast.Name) and x.id == dual for x in ast.walk(vx)):
+                raise AnalysisError('le_to_rc: `%s` is rebuilt from the multipliers by `%s`, a form the rule does '
+                                    'not interpret' % (name, ntext(v)[:50]))
+            cur.pop(name)          # the name now holds something else
         if isinstance(v, ast.Call) and call_name(v) == 'LinConstr':
             env = bind_args(repo.func('lp.LinConstr.__init__'), v) or {}
             lin = env.get('linear')
@@ -91,7 +99,14 @@ def run(repo):
                              'np.tile(pattern, <number of robust rows>)')
                 bt = br
             elif st_t == 'match':
-                if ntext(ex(bt['_REPS'][2])) != nrows:
+                reps = ex(bt['_REPS'][2])
+                if isinstance(reps, ast.Tuple) and len(reps.elts) == 1:
+                    reps = reps.elts[0]                     # np.tile(p, (n,)) is np.tile(p, n)
+                # <model>.dvar((rows, cols)).shape[0] is rows
+                sst, sb, _ = pmatch('__.dvar((_r, _c)).shape[0]', reps)
+                if sst == 'match':
+                    reps = sb['_r'][2]
+                if ntext(ex(reps)) != nrows:
                     probs.append('tiles the pattern %s times instead of once per robust row (%s)'
                                  % (bt['_REPS'][1], nrows))
             else:
